@@ -204,7 +204,7 @@ impl<M: RawMutex + 'static> OneApi for SBroadcast<M> {
     fn new() -> Self {
         let (tx, rx) = generic_oneshot_broadcast_channel::<M, Val>();
         let chan = tx.verif_channel() as *const _;
-        { let mut v = Vec::with_capacity(4); v.push(rx); SBroadcast { tx: Some(tx), rx: v, chan } }
+        { let mut v = Vec::with_capacity(8); v.push(rx); SBroadcast { tx: Some(tx), rx: v, chan } }
     }
     fn has_tx(&self) -> bool {
         self.tx.is_some()
@@ -378,7 +378,7 @@ impl<A: OneApi> OneInner<A> {
             if self.api.has_tx() {
                 out.push(Ev::new(DROP_TX, 0, 0));
             }
-            if A::BROADCAST && self.api.n_rx() > 0 && self.api.n_rx() < 3 {
+            if A::BROADCAST && self.api.n_rx() > 0 && self.api.n_rx() < (if self.bounded { 3 } else { 5 }) {
                 out.push(Ev::new(CLONE_RX, 0, 0));
             }
             for i in 0..self.api.n_rx() {
